@@ -13,6 +13,9 @@ Definition styles (s : astr) : list (list str) :=
 
 (* ====================================================================== *)
 (* 0. Slices of well-formed values are well formed                         *)
+(*    (strictness of a slice: the e_ lemmas follow the proof of the same    *)
+(*    fact in the C09 development; they are restated here so that this file *)
+(*    depends only on the frozen proof files)                               *)
 (* ====================================================================== *)
 Lemma e_sok_snd t1 : forall t2 a, map snd t1 = map snd t2 -> strict_ok_from t1 a = strict_ok_from t2 a.
 Proof.
@@ -1263,6 +1266,14 @@ Proof.
   pose proof (cut_first_spec (tS "q") (base s1)) as H.
   replace (cut_first (tS "q") (base s1)) with (@None (str * str)) in H by reflexivity. exact H.
 Qed.
+
+(* replace_fuel_enough is not vacuous: on an ill-formed replacement object (a stop marker listed twice)
+   the concatenation inside replace fails -- with IndexError, the only error replace can give *)
+Definition sx : astr := mkA (tS "xq") [(0, mkP [red] []); (2, mkP [] [red])].
+Definition red5 := mkS 5 (tS "red").
+Definition bad : astr := mkA (tS "cd") [(0, mkP [red5] []); (1, mkP [] [red5; red5])].
+Example ex_rep_index_error : replace sx (tS "q") (RObj bad) (-1) 100 = Err IndexError /\ wfb bad = false.
+Proof. split; reflexivity. Qed.
 End EditExamples.
 
 (* ====================================================================== *)
@@ -1363,6 +1374,121 @@ Proof.
   cbn [length] in H. rewrite E in H. exact H.
 Qed.
 
+(* styles: the inserted text gets the styles of the replacement; for a plain str those of the character
+   it is put in front of (none at the very end) *)
+Fixpoint replace_styles_empty (r : repl) (count : Z) (st : list (list str)) : list (list str) :=
+  if (count =? 0)%Z then st
+  else match st with
+       | [] => repl_styles r []
+       | x :: rest => repl_styles r x ++ x :: replace_styles_empty r (count - 1) rest
+       end.
+
+Lemma replace_styles_empty_eq r count st :
+  replace_styles_empty r count st =
+  if (count =? 0)%Z then st
+  else match st with
+       | [] => repl_styles r []
+       | x :: rest => repl_styles r x ++ x :: replace_styles_empty r (count - 1) rest
+       end.
+Proof. destruct st; reflexivity. Qed.
+
+Lemma replace_styles_empty_neg r : forall st m1 m2, (m1 < 0)%Z -> (m2 < 0)%Z ->
+  replace_styles_empty r m1 st = replace_styles_empty r m2 st.
+Proof.
+  induction st as [|x st IH]; intros m1 m2 H1 H2;
+    rewrite (replace_styles_empty_eq r m1), (replace_styles_empty_eq r m2);
+    replace (m1 =? 0)%Z with false by (symmetry; apply Z.eqb_neq; lia);
+    replace (m2 =? 0)%Z with false by (symmetry; apply Z.eqb_neq; lia); [reflexivity|].
+  do 2 f_equal. apply IH; lia.
+Qed.
+
+Lemma replace_styles_empty_dec r st count : (count =? 0)%Z = false ->
+  replace_styles_empty r (dec_count count) st = replace_styles_empty r (count - 1) st.
+Proof.
+  intros H. apply Z.eqb_neq in H. unfold dec_count. destruct (0 <? count)%Z eqn:E; [reflexivity|].
+  apply Z.ltb_ge in E. apply replace_styles_empty_neg; lia.
+Qed.
+
+Lemma skipn_cons_nth {A} : forall n (l : list A) d, n < length l -> skipn n l = nth n l d :: skipn (S n) l.
+Proof.
+  induction n as [|n IH]; intros [|x l] d H; cbn [length] in H; try lia; [reflexivity|].
+  cbn [skipn nth]. apply IH. lia.
+Qed.
+
+Lemma replace_loop_empty_styles r : repl_ok r ->
+  forall fuel obj done rest count nid,
+  repl_inv r obj nid -> base obj = done ++ rest -> length rest + 1 < fuel ->
+  exists o n,
+    replace_loop fuel obj [] r count (Some (length done)) nid = OK (o, n)
+    /\ repl_inv r o n
+    /\ styles o = firstn (length done) (styles obj)
+                  ++ replace_styles_empty r count (skipn (length done) (styles obj)).
+Proof.
+  intros Hok. pose proof (repl_ok_plain r Hok) as Hp.
+  induction fuel as [|f IH]; intros obj done rest count nid Inv Eb Hf; [lia|].
+  rewrite replace_loop_S, replace_styles_empty_eq.
+  destruct (count =? 0)%Z eqn:Ec.
+  { exists obj, nid. split; [reflexivity|]. split; [exact Inv|]. now rewrite firstn_skipn. }
+  assert (Hlen : length (base obj) = length done + length rest) by (rewrite Eb, app_length; lia).
+  set (i := length done) in *.
+  destruct (repl_value obj i r nid) as [rv nid1] eqn:Erv.
+  destruct (repl_value_props obj i r nid rv nid1 Hok Inv Erv) as (Wr & Br & Sr & Cr & Next).
+  destruct Inv as [Wo _].
+  destruct (splice obj rv i 0 Wo Wr Cr ltac:(lia)) as (lft & obj' & El & Eo & W' & _ & S' & Sub).
+  change (length (@nil char)) with 0. rewrite El. cbn [bind]. rewrite Eo. cbn [bind].
+  assert (Eb' : base obj = done ++ [] ++ [] ++ rest) by exact Eb.
+  destruct (replace_step_text obj [] r done [] rest i nid rv nid1 lft obj' Hp Eb'
+              ltac:(unfold i; cbn [length]; lia) Erv El Eo) as [_ Eo'].
+  cbn [app] in Eo'. rewrite repl_len_text. change (if is_nil (@nil char) then 1 else 0) with 1.
+  rewrite Nat.add_0_r in S'.
+  set (ST := styles obj) in *. set (RS := styles rv) in *.
+  assert (LST : length ST = length (base obj)) by apply styles_length.
+  assert (LRS : length RS = length (repl_text r)) by (rewrite Sr, repl_styles_length; apply repl_len_text).
+  destruct rest as [|c rest'].
+  - cbn [length] in Hlen. rewrite app_nil_r in Eo'. unfold find_from. rewrite Eo', app_length. fold i.
+    replace (i + length (repl_text r) <? i + length (repl_text r) + 1) with true
+      by (symmetry; apply Nat.ltb_lt; lia).
+    destruct f as [|f']; [cbn [length] in Hf; lia|]. rewrite replace_loop_S.
+    exists obj', nid1. split; [reflexivity|]. split; [now apply Next|].
+    rewrite S'. rewrite (skipn_all2 ST) by lia. rewrite app_nil_r, Sr, (nth_overflow ST) by lia. reflexivity.
+  - cbn [length] in Hlen, Hf.
+    assert (Eo2 : base obj' = ((done ++ repl_text r) ++ [c]) ++ rest') by (rewrite Eo', <- !app_assoc; reflexivity).
+    rewrite Eo2.
+    replace (i + length (repl_text r) + 1) with (length ((done ++ repl_text r) ++ [c]))
+      by (rewrite !app_length; cbn [length]; fold i; lia).
+    rewrite find_from_app, find_at_empty.
+    destruct (IH obj' ((done ++ repl_text r) ++ [c]) rest' (dec_count count) nid1 (Next obj' W' Sub) Eo2 ltac:(lia))
+      as (o & n & E1 & Inv1 & S1).
+    exists o, n. split; [exact E1|]. split; [exact Inv1|].
+    rewrite S1, replace_styles_empty_dec by exact Ec. rewrite S'.
+    rewrite (skipn_cons_nth i ST []) by lia. rewrite <- Sr.
+    set (x := nth i ST []). set (R' := skipn (S i) ST).
+    assert (L1 : length (firstn i ST ++ RS ++ [x]) = length ((done ++ repl_text r) ++ [c])).
+    { rewrite !app_length, firstn_length, LRS. cbn [length]. fold i. lia. }
+    replace (firstn i ST ++ RS ++ x :: R') with ((firstn i ST ++ RS ++ [x]) ++ R')
+      by (rewrite <- !app_assoc; reflexivity).
+    rewrite (firstn_app_exact _ _ _ L1), (skipn_app_exact _ _ _ L1).
+    rewrite <- !app_assoc. reflexivity.
+Qed.
+
+(* E2. the call succeeds, text and styles *)
+Theorem replace_empty_spec s r count nid : repl_ok r -> repl_inv r s nid ->
+  exists s' nid',
+    replace s [] r count nid = OK (s', nid')
+    /\ base s' = py_replace_empty (repl_text r) count (base s)
+    /\ styles s' = replace_styles_empty r count (styles s)
+    /\ repl_inv r s' nid'.
+Proof.
+  intros Hok Inv.
+  destruct (replace_loop_empty_styles r Hok (length (base s) + 2) s [] (base s) count nid Inv eq_refl ltac:(lia))
+    as (o & n & E & Inv' & S').
+  cbn [length firstn skipn app] in *. exists o, n.
+  assert (E' : replace s [] r count nid = OK (o, n))
+    by (unfold replace; now rewrite StrOpsProofs.find_from_0, find_at_empty).
+  split; [exact E'|]. split; [|split; [exact S'|exact Inv']].
+  eapply replace_empty_text; eauto. now apply repl_ok_plain.
+Qed.
+
 Module EmptyExamples.
 Import EditExamples.
 Local Open Scope string_scope.
@@ -1378,6 +1504,12 @@ Example ex_rep_empty_text_agree :
   /\ option_map fst (run_replace s1 [] (RObj ob) 3) = Some (py_replace_empty (tS "ZW") 3 (base s1))
   /\ option_map fst (run_replace (mkA [] []) [] (RObj ob) (-1)) = Some (tS "ZW").
 Proof. repeat split; reflexivity. Qed.
+Example ex_rep_empty_styles_agree :
+  option_map snd (run_replace s1 [] (RStr (tS "-")) (-1)) = Some (replace_styles_empty (RStr (tS "-")) (-1) (styles s1))
+  /\ option_map snd (run_replace s1 [] (RObj ob) 3) = Some (replace_styles_empty (RObj ob) 3 (styles s1))
+  /\ option_map snd (run_replace s1 [] (RStr (tS "--")) 4) = Some (replace_styles_empty (RStr (tS "--")) 4 (styles s1)).
+Proof. repeat split; reflexivity. Qed.
+Example ex_replace_empty_spec := replace_empty_spec s1 (RStr (tS "-")) (-1) 100 eq_refl (s1_inv_str _).
 End EmptyExamples.
 
 (* ====================================================================== *)
@@ -1414,3 +1546,4 @@ Print Assumptions replace_str_spec.
 Print Assumptions replace_obj_spec.
 Print Assumptions replace_empty_text.
 Print Assumptions replace_empty_fuel_enough.
+Print Assumptions replace_empty_spec.
